@@ -9,8 +9,17 @@ from common import KnownFindings, MachineryError, Report, text_hash
 from objs import run_obj_batch
 from pairs import image_of, oracle_at, run_pair_batch
 
-PRIMES = [3, 5, 7, 11, 13, 17, 19, 23, 29, 31, 37, 41, 43, 47, 53, 59, 61, 67, 71, 73, 79, 83, 89, 97, 101, 103, 107, 109, 113,
-          127, 131, 137, 139, 149, 151, 157, 163, 167, 173, 179, 181, 191, 193, 197, 199, 211, 223, 227, 229, 233, 239, 241, 251]
+def _primes(n):
+    out, k = [], 3
+    while len(out) < n:
+        if all(k % q for q in out if q * q <= k):
+            out.append(k)
+        k += 2
+    return out
+
+
+# pairwise distinct markers for bounds / strides: enough for the largest configuration with two streaming regions on one accelerator object
+PRIMES = _primes(160)
 
 
 def rand_config(rng, n_streamers=None, allow_opts=True):
